@@ -309,7 +309,8 @@ Qed.
 Lemma handle_telegram_heard now f (w : W) t il f' w' :
   heard_kind (f_state f) -> handle_telegram A now f w t il = Ok (f', w') ->
   heard_kind (f_state f') /\ ring_witnessed (f_ring f) (f_ring f') /\ f_p f' = f_p f /\ f_conn f' = f_conn f /\
-  w_tx w' = w_tx w /\ w_calls w' = w_calls w /\ w_apps w' = w_apps w /\ w_rx w' = w_rx w.
+  w_tx w' = w_tx w /\ w_calls w' = w_calls w /\ w_apps w' = w_apps w /\ w_rx w' = w_rx w /\
+  f_lba f' = f_lba f /\ f_pending f' = f_pending f.
 Proof.
   unfold handle_telegram. intros Hk H.
   destruct (f_state f) as [ | |sr0 cc0|sr nps cc|tk fa fcd| | | | | ] eqn:Es; cbn in Hk; try contradiction.
@@ -1004,4 +1005,215 @@ Proof.
     cbn [retry_ok s_f' s_out]. split; [exact Hs|]. exact (IH _ _ _ _ Hg' Er).
 Qed.
 
+
+(* ------------------------------------------------------------------------------------------ *)
+(* Part 4: a poll of an idle ring member that finds exactly one complete telegram                *)
+
+Lemma poll_inner_online f now busy (w : W) :
+  f_conn f = ConnOnline -> online_entry_kind (kind_of (f_state f)) = false ->
+  poll_inner ops f now busy w = body f now busy w.
+Proof. intros Hc Hk. unfold poll_inner. rewrite Hc, Hk. cbn [bind]. apply body_eq. Qed.
+
+Lemma handle_lost_token_quiet f now (w : W) l :
+  f_lba f = Some l -> i64_ok (now - l) = true -> Z.abs (now - l) < token_lost_timeout (f_p f) ->
+  handle_lost_token A f now w = Ok (f, w, false).
+Proof.
+  intros Hl Hok Hlt. unfold handle_lost_token, lba_get_or_insert, inst_diff. rewrite Hl, Hok. cbn [bind].
+  destruct (Z.leb_spec (token_lost_timeout (f_p f)) (Z.abs (now - l))) as [C|_]; [lia|reflexivity].
+Qed.
+
+(* ActiveIdle without a pending status request, one complete telegram newly in the receive buffer, the
+   bus otherwise quiet: the poll is handle_telegram on that telegram (as last telegram), applied to the
+   station with refreshed bus-activity bookkeeping; nothing is transmitted, the buffer is consumed. *)
+Lemma ai_single_poll f now buf (apps : list A) nps cc t f' o a c :
+  f_conn f = ConnOnline -> f_state f = ActiveIdle None nps cc ->
+  (forall l, f_lba f = Some l -> l < now) -> (f_pending f < length buf)%nat ->
+  decode_spec buf = Accept t (length buf) -> 0 < token_lost_timeout (f_p f) ->
+  poll ops f now (mkPhyIn false buf) apps = Ok (f', o, a, c) ->
+  exists fm f1 (w0 w1 : W),
+    f_state fm = f_state f /\ f_ring fm = f_ring f /\ f_p fm = f_p f /\ f_conn fm = f_conn f /\
+    handle_telegram A now fm w0 t true = Ok (f1, w1) /\
+    f_state f' = f_state f1 /\ f_ring f' = f_ring f1 /\ f_p f' = f_p f1 /\ f_conn f' = f_conn f1 /\
+    f_lba f' = Some now /\ f_pending f' = 0%nat /\ o = mkPhyOut None [] /\ a = apps /\ c = [].
+Proof.
+  intros Hc Hst Hlba Hpend Hdec Hto H.
+  apply poll_inv in H. destruct H as [w' [H [-> [-> ->]]]]. cbn [tx_busy rx] in H.
+  rewrite poll_inner_online in H; [|exact Hc|rewrite Hst; reflexivity].
+  unfold body in H. cbn [orb] in H.
+  assert (Hpred : predicted f now = false).
+  { unfold predicted. destruct (f_lba f) as [l|] eqn:El; [|reflexivity]. apply Z.leb_gt. apply Hlba. reflexivity. }
+  rewrite Hpred in H.
+  destruct (check_for_bus_activity A f now _) as [f1 w1] eqn:Ec. apply cfba_spec in Ec.
+  destruct Ec as [[Hp1 [Hr1 [Hc1 [_ [Hs1 _]]]]] [Htx1 [Hca1 [Hrx1 [Hap1 Hl1]]]]].
+  cbn [w_tx w_calls w_rx w_apps] in Htx1, Hca1, Hrx1, Hap1, Hl1.
+  destruct (Nat.ltb_spec (f_pending f) (length buf)) as [_|C]; [|lia]. destruct Hl1 as [Hl1 Hpe1].
+  assert (Hl1' : f_lba f1 = Some now).
+  { rewrite Hl1. destruct (f_lba f) as [l|] eqn:El; [|reflexivity]. specialize (Hlba l eq_refl). rewrite Z.max_r by lia. reflexivity. }
+  unfold dispatch in H. rewrite Hs1, Hst in H. cbn [kind_of poll_dispatch] in H.
+  unfold do_active_idle, assert_entry in H. rewrite Hs1, Hst in H. cbn [kind_of do_fn_entry state_kind_eqb bind] in H.
+  rewrite (handle_lost_token_quiet f1 now w1 now Hl1') in H;
+    [|rewrite Z.sub_diag; reflexivity|rewrite Z.sub_diag, Hp1; cbn; exact Hto].
+  cbn [bind] in H. rewrite Hs1, Hst in H. cbn [get_active_idle bind] in H.
+  unfold receive_all_telegrams in H. rewrite Hrx1 in H. unfold receive_all_fuel in H.
+  rewrite receive_all_step, Hdec in H. cbv zeta in H. rewrite Nat.eqb_refl in H.
+  unfold active_idle_telegram in H.
+  destruct (handle_telegram A now (mark_rx f1 now) w1 t true) as [[f2 w2]| |] eqn:Eh; cbn [bind] in H; try discriminate H.
+  injection H as <- <-.
+  destruct (mark_rx_frame f1 now) as [Mp [Mr [_ [Ms [Mc _]]]]].
+  pose proof Eh as Eh'. apply handle_telegram_heard in Eh'; [|rewrite Ms, Hs1, Hst; exact I].
+  destruct Eh' as [_ [_ [_ [_ [Htx2 [Hca2 [Hap2 [_ [Hl2 _]]]]]]]]].
+  exists (mark_rx f1 now), f2, w1, w2.
+  split; [congruence|]. split; [congruence|]. split; [congruence|]. split; [congruence|].
+  split; [exact Eh|]. cbn. rewrite skipn_all. cbn.
+  rewrite Hl2, Htx2, Hca2, Hap2, Htx1, Hca1, Hap1.
+  repeat split; try reflexivity.
+  - unfold mark_rx, mark_bus_activity, lba_get_or_insert. cbn. rewrite Hl1'. cbn. rewrite Z.max_id. reflexivity.
+  - destruct (f_pending f2); reflexivity.
+Qed.
+
+(* the two collision counters: what handle_telegram does with a token that carries the own address *)
+Lemma handle_telegram_collision (f : fdl) (w : W) now sr nps cc da il f' w' :
+  f_state f = ActiveIdle sr nps cc ->
+  handle_telegram A now f w (TToken da (ts f)) il = Ok (f', w') ->
+  cc + 1 <= 255 /\ f_ring f' = f_ring f /\ f_conn f' = f_conn f /\
+  f_state f' = if cc + 1 =? active_idle_collision_tolerated then ActiveIdle sr nps (cc + 1) else ListenToken None 0.
+Proof.
+  intros Hst H. unfold handle_telegram in H. rewrite Hst in H. cbn [kind_of state_kind_eqb negb] in H.
+  cbn [get_active_idle bind] in H. rewrite Z.eqb_refl in H.
+  unfold u8_add in H. destruct (Z.leb_spec (cc + 1) 255) as [Hle|_]; cbn [bind] in H; [|discriminate H].
+  split; [exact Hle|].
+  destruct (cc + 1 =? active_idle_collision_tolerated).
+  - injection H as <- <-. repeat split; reflexivity.
+  - apply trans_spec in H. destruct H as [s' [Ht [-> _]]]. cbn in Ht. injection Ht as <-. repeat split; reflexivity.
+Qed.
+
+(* C11_accept_second_offer as a history of two polls.  Poll 1: a stranger (not the predecessor, not
+   the pending one) offers the token: only recorded.  Poll 2: the same stranger again: accepted;
+   a different stranger: replaces the pending one (so that the first stranger has to start over). *)
+Theorem accept_second_offer f now1 (apps : list A) nps cc sa f1 o1 a1 c1 :
+  f_conn f = ConnOnline -> f_state f = ActiveIdle None nps cc ->
+  (forall l, f_lba f = Some l -> l < now1) -> (f_pending f < 3)%nat -> 0 < token_lost_timeout (f_p f) ->
+  sa <> ts f -> sa <> r_ps (f_ring f) -> nps <> Some sa ->
+  poll ops f now1 (mkPhyIn false (encode_token (ts f) sa)) apps = Ok (f1, o1, a1, c1) ->
+  (f_state f1 = ActiveIdle None (Some sa) 0 /\ f_ring f1 = f_ring f /\ o1 = mkPhyOut None [] /\ a1 = apps /\ c1 = []) /\
+  forall now2, now1 < now2 ->
+    (forall f2 o2 a2 c2, poll ops f1 now2 (mkPhyIn false (encode_token (ts f) sa)) a1 = Ok (f2, o2, a2, c2) ->
+       f_state f2 = UseToken now2 None false /\ o2 = mkPhyOut None [] /\ c2 = []) /\
+    (forall sb f2 o2 a2 c2, sb <> sa -> sb <> ts f -> sb <> r_ps (f_ring f) ->
+       poll ops f1 now2 (mkPhyIn false (encode_token (ts f) sb)) a1 = Ok (f2, o2, a2, c2) ->
+       f_state f2 = ActiveIdle None (Some sb) 0 /\ f_ring f2 = f_ring f /\ o2 = mkPhyOut None [] /\ c2 = []).
+Proof.
+  intros Hc Hst Hlba Hpend Hto Hsa Hps Hnps H.
+  apply ai_single_poll with (nps := nps) (cc := cc) (t := TToken (ts f) sa) in H; try assumption; try reflexivity.
+  destruct H as [fm [g1 [w0 [w1 [Hsm [Hrm [Hpm [Hcm [Hh [Hs1 [Hr1 [Hp1 [Hc1 [Hl1 [Hpe1 [-> [-> ->]]]]]]]]]]]]]]]]].
+  assert (Hts : ts fm = ts f) by (unfold ts; rewrite Hpm; reflexivity).
+  rewrite <- Hts in Hh.
+  pose proof Hh as Hh'. apply handle_telegram_heard in Hh'; [|rewrite Hsm, Hst; exact I].
+  destruct Hh' as [_ [_ [Hpg [Hcg _]]]].
+  destruct (handle_telegram_accept_iff A fm w0 now1 None nps cc sa g1 w1) as [_ Hrej];
+    [rewrite Hsm; exact Hst|rewrite Hts; exact Hsa|exact Hh|].
+  destruct Hrej as [Hsg Hrg]; [rewrite Hrm; intros [X|X]; [exact (Hps X)|exact (Hnps X)]|].
+  assert (Hst1 : f_state f1 = ActiveIdle None (Some sa) 0) by congruence.
+  assert (Hring1 : f_ring f1 = f_ring f) by congruence.
+  assert (Hpp1 : f_p f1 = f_p f) by congruence.
+  assert (Hcc1 : f_conn f1 = ConnOnline) by congruence.
+  split; [repeat split; assumption|].
+  intros now2 Hnow.
+  assert (Hlba1 : forall l, f_lba f1 = Some l -> l < now2) by (intros l El; rewrite Hl1 in El; injection El as <-; exact Hnow).
+  assert (Hpend1 : (f_pending f1 < 3)%nat) by (rewrite Hpe1; lia).
+  assert (Hto1 : 0 < token_lost_timeout (f_p f1)) by (rewrite Hpp1; exact Hto).
+  split.
+  - intros f2 o2 a2 c2 H2.
+    apply ai_single_poll with (nps := Some sa) (cc := 0) (t := TToken (ts f) sa) in H2; try assumption; try reflexivity.
+    destruct H2 as [fm2 [g2 [w02 [w12 [Hsm2 [Hrm2 [Hpm2 [_ [Hh2 [Hs2 [_ [_ [_ [_ [_ [-> [_ ->]]]]]]]]]]]]]]]]].
+    assert (Hts2 : ts fm2 = ts f) by (unfold ts; rewrite Hpm2, Hpp1; reflexivity).
+    rewrite <- Hts2 in Hh2.
+    destruct (handle_telegram_accept_iff A fm2 w02 now2 None (Some sa) 0 sa g2 w12) as [Hacc _];
+      [rewrite Hsm2; exact Hst1|rewrite Hts2; exact Hsa|exact Hh2|].
+    rewrite Hs2, Hacc by (right; reflexivity). repeat split; reflexivity.
+  - intros sb f2 o2 a2 c2 Hsb Hsbts Hsbps H2.
+    apply ai_single_poll with (nps := Some sa) (cc := 0) (t := TToken (ts f) sb) in H2; try assumption; try reflexivity.
+    destruct H2 as [fm2 [g2 [w02 [w12 [Hsm2 [Hrm2 [Hpm2 [_ [Hh2 [Hs2 [Hr2 [_ [_ [_ [_ [-> [_ ->]]]]]]]]]]]]]]]]].
+    assert (Hts2 : ts fm2 = ts f) by (unfold ts; rewrite Hpm2, Hpp1; reflexivity).
+    rewrite <- Hts2 in Hh2.
+    destruct (handle_telegram_accept_iff A fm2 w02 now2 None (Some sa) 0 sb g2 w12) as [_ Hrej2];
+      [rewrite Hsm2; exact Hst1|rewrite Hts2; exact Hsbts|exact Hh2|].
+    destruct Hrej2 as [Hsg2 Hrg2].
+    { rewrite Hrm2, Hring1. intros [X|X]; [exact (Hsbps X)|injection X as X; apply Hsb; symmetry; exact X]. }
+    repeat split; congruence.
+Qed.
+
+
+(* ------------------------------------------------------------------------------------------ *)
+(* corollaries in the form of the property text                                                  *)
+
+(* C11_supervise, second half: while supervising a pass the station transmits only when the slot
+   timer has run out *)
+Lemma supervise_tx_only_expired f now pin (apps : list A) f' o a c att :
+  f_state f = CheckTokenPass att -> poll ops f now pin apps = Ok (f', o, a, c) ->
+  tx o <> None -> slot_expired f now pin = true.
+Proof.
+  intros Hst H Htx. destruct (check_pass_poll f now pin apps f' o a c att Hst H) as [_ [_ [_ D]]].
+  destruct (slot_expired f now pin); [reflexivity|]. destruct D as [D _]. contradiction.
+Qed.
+
+(* new bytes in the receive buffer restart the slot timer *)
+Lemma new_bytes_not_expired f now pin :
+  0 <= slot_time (f_p f) -> (f_pending f < length (rx pin))%nat -> slot_expired f now pin = false.
+Proof.
+  intros Hs Hn. unfold slot_expired, lba_seen.
+  destruct (Nat.ltb_spec (f_pending f) (length (rx pin))) as [_|C]; [|lia].
+  replace (_ + slot_time (f_p f) <? now) with false; [apply andb_false_r|].
+  symmetry. apply Z.ltb_ge. destruct (f_lba f); lia.
+Qed.
+
+(* C11_heard_not_removed: bus activity seen by the poll (new bytes in the receive buffer) while the
+   pass is supervised: nothing is transmitted and nobody is removed (the ring view changes by witnessed
+   passes only); a complete telegram takes the station out of the hand-over (to ActiveIdle, where the
+   telegrams are handled), an incomplete one lets it wait on, undecodable bytes are dropped. *)
+Lemma heard_not_removed f now pin (apps : list A) f' o a c att :
+  f_state f = CheckTokenPass att -> 0 <= slot_time (f_p f) ->
+  tx_busy pin = false -> predicted f now = false -> (f_pending f < length (rx pin))%nat ->
+  poll ops f now pin apps = Ok (f', o, a, c) ->
+  tx o = None /\ c = [] /\ ring_witnessed (f_ring f) (f_ring f') /\
+  match decode_spec (rx pin) with
+  | Accept _ _ => heard_kind (f_state f')
+  | Reject => f_state f' = CheckTokenPass att /\ f_ring f' = f_ring f /\ rx_left o = []
+  | NeedMore => f_state f' = CheckTokenPass att /\ f_ring f' = f_ring f /\ rx_left o = rx pin
+  end.
+Proof.
+  intros Hst Hs Hb Hp Hn H. destruct (check_pass_poll f now pin apps f' o a c att Hst H) as [_ [Hc [_ D]]].
+  rewrite (new_bytes_not_expired f now pin Hs Hn), Hb, Hp in D. cbn [orb] in D.
+  destruct D as [Htx [Hrw D]]. repeat split; assumption.
+Qed.
+
 End WithApps.
+
+Arguments run_polls {A}.
+
+(* ------------------------------------------------------------------------------------------ *)
+(* a concrete run (non-vacuity of C11_retry_discipline): station 1 with successor 5 in its ring view,
+   nobody answers.  Observed per poll: state kind afterwards, transmission, ghost count afterwards. *)
+
+Fixpoint ghost_trace (c : nat) (steps : list step_rec) : list (state_kind * option bytes * nat) :=
+  match steps with
+  | [] => []
+  | s :: t => let c' := ghost_next c (s_f' s) (s_out s) in
+              (kind_of (f_state (s_f' s)), tx (s_out s), c') :: ghost_trace c' t
+  end.
+
+Definition ex_ring : res ring :=
+  let* r := ring_new 1 in let* r := set_next_station r 5 in Ok (claim_token r).
+
+Definition ex_station (r : ring) : fdl :=
+  mkFdl default_params r ConnOnline (GapWaiting 0) (PassToken false AttFirst) (Some 0) 0 0 0 0.
+
+Definition ex_inputs : list (Z * phy_in) :=
+  [(100000, mkPhyIn false []); (200000, mkPhyIn false []); (300000, mkPhyIn false []);
+   (301000, mkPhyIn false []); (303000, mkPhyIn false []); (400000, mkPhyIn false [])].
+
+Definition ex_trace : res (list (state_kind * option bytes * nat)) :=
+  let* r := ex_ring in
+  let* steps := run_polls unit_app_ops (ex_station r) [tt] ex_inputs in
+  Ok (ghost_trace 0 steps).
+
